@@ -69,6 +69,7 @@ ATOMIC = [
     ("estimate", 2),
     ("transpose", 3),
     ("len_getitem", 2),
+    ("group_views", 2),
     ("perf_midi", 3),
     ("perf_array", 2),
     ("num_tracks", 2),
@@ -437,6 +438,26 @@ def run_atomic(w, op, res, sink=None):
             r = M.transpose(tgt, S.Interval(num, qual))
             _container_consistent(res, r, k)
             return FP.value_fp(r)
+        if k == "group_views":
+            # read-only views taken on part groups and on the score's own structure list
+            out = []
+            stack = [x for x in w.score.part_structure if isinstance(x, S.PartGroup)]
+            while stack:
+                g = stack.pop(0)
+                stack.extend(x for x in g.children if isinstance(x, S.PartGroup))
+                try:
+                    out.append(FP.digest(g.note_array().tolist())[:12])
+                except Exception as e:
+                    if not any("/partitura/" in f.filename for f in __import__("traceback").extract_tb(e.__traceback__)):
+                        raise
+                    out.append("raised:" + type(e).__name__)
+            try:
+                out.append(FP.digest(M.note_array_from_part_list(w.score.part_structure).tolist())[:12])
+            except Exception as e:
+                if not any("/partitura/" in f.filename for f in __import__("traceback").extract_tb(e.__traceback__)):
+                    raise
+                out.append("raised:" + type(e).__name__)
+            return out
         if k == "len_getitem":
             n = len(tgt)
             r = [n] + [tgt[i].id for i in range(n)] + [tgt[-1].id]
